@@ -319,3 +319,18 @@ def run(ctx: Ctx):
         c13.rule_wrap(ctx, "C12.3"),
         rule_pipeline(ctx),
     ]
+
+
+from ..mutants import Mut  # noqa: E402
+
+_M = "urwid/event_loop/main_loop.py"
+_P = "urwid/display/_posix_raw_display.py"
+MUTANTS = [
+    Mut("run-stop-only-on-exception-subclass", _M, "MainLoop._run", "        except:\n            self.screen.stop()  # clean up screen control\n            raise", "        except Exception:\n            self.screen.stop()  # clean up screen control\n            raise", "PASS|"),
+    Mut("run-reraise-wrapped", _M, "MainLoop._run", "            self.screen.stop()  # clean up screen control\n            raise\n", "            self.screen.stop()  # clean up screen control\n            raise RuntimeError(\"event loop failed\")\n", "PASS|"),
+    Mut("bracketed-paste-not-disabled", _P, "urwid.display._posix_raw_display.Screen._stop", "            self.write(escape.DISABLE_BRACKETED_PASTE_MODE)", "            pass", "PAIR|"),
+    Mut("focus-reporting-other-guard", _P, "urwid.display._posix_raw_display.Screen._stop", "        if self.focus_reporting:\n            self.write(escape.DISABLE_FOCUS_REPORTING)", "        if self.bracketed_paste_mode:\n            self.write(escape.DISABLE_FOCUS_REPORTING)", "PAIR|"),
+    Mut("unhandled-input-short-circuit", _M, "MainLoop.process_input", "something_handled |= bool(self.unhandled_input(key))", "something_handled = something_handled or bool(self.unhandled_input(key))", "ORDER|event_loop.main_loop.MainLoop.process_input"),
+    Mut("filter-result-ignored", _M, "MainLoop._update", "            self.process_input(keys)\n", "            self.process_input(list(raw) and keys or keys[:0] or keys)\n", "ORDER|", error_ok=True),
+    Mut("tornado-idle-unwrapped", "urwid/event_loop/tornado_loop.py", "TornadoEventLoop._also_call_idle", "self._loop.call_later(0, self.handle_exit(self._entering_idle))", "self._loop.call_later(0, self._entering_idle)", "WRAP|"),
+]
